@@ -354,6 +354,39 @@ func malformedJWK(cls string, good *jws.JWK, kt concr.KeyType) []*jws.JWK {
 		a := cp()
 		a.X = b64e(append(append([]byte{}, x...), 1))
 		return []*jws.JWK{a}
+	case "zeroPaddedX": // same number, wrong coordinate length
+		var out []*jws.JWK
+		for _, n := range []int{1, 2, 8} {
+			a := cp()
+			a.X = b64e(append(make([]byte, n), x...))
+			out = append(out, a)
+		}
+		return out
+	case "zeroPaddedY":
+		if kt == concr.Ed25519 {
+			return nil
+		}
+		var out []*jws.JWK
+		for _, n := range []int{1, 2, 8} {
+			a := cp()
+			a.Y = b64e(append(make([]byte, n), b64d(good.Y)...))
+			out = append(out, a)
+		}
+		return out
+	case "strippedY": // a coordinate with a leading zero byte, presented without it
+		if kt == concr.Ed25519 {
+			return nil
+		}
+		for tries := 0; tries < 4000; tries++ {
+			k := newJWSKey(kt)
+			y := b64d(k.jwk.Y)
+			if y[0] == 0 {
+				a := *k.jwk
+				a.Y = b64e(y[1:])
+				return []*jws.JWK{&a}
+			}
+		}
+		return nil
 	case "offCurve":
 		if kt == concr.Ed25519 {
 			return nil
